@@ -100,9 +100,11 @@ CHECKS = {
             "join incl. runs of 3 and two runs in a row, every single termination, terminate-all) replayed by importing the history and comparing the whole tree "
             "(stage per line, node per cell, parent, header, spine id, literal text, children order, public spine ids/types/token cells); in every reached state each row "
             "kind is offered with every kind of surplus cell (must raise). Plus unmerged enumeration of all operator sequences to depth 4/5 and literal cells (quote, comma, "
-            "space, non-ASCII) in every column and position. Also: every literal cell through the file reader (load) as well, blank-line variants, rows that join one run and split another column at once, and hand-made documents beyond the bounds (twelve spines, four levels of nested splits).",
-            'Trusted: kv/model.py SpineModel. Bounds: <=3 (thorough 4) spines, column cap 4-6, depth 4/5 for unmerged paths. Merging argument in DESIGN §3 C02.',
-            'explicit-state BFS to closure with lock-step refinement check against a reference model + bounded-exhaustive path enumeration', 'DESIGN.md §3 C02'),
+            "space, non-ASCII) in every column and position. Also: every literal cell through the file reader (load) as well, blank-line variants, rows that join one run and split another column at once, and hand-made documents beyond the bounds (twelve spines, four levels of nested splits). "
+            "Second model: the same rules as a TLA+ specification (tla/SpinePaths.tla: every assignment of * / *^ / *v / *- to the live columns that obeys the join rule, plus plain rows) explored to closure by TLC, "
+            "which also checks the model's invariants; EVERY edge of the dumped state graph is replayed against kernpy with a witness history and a probe row (parents, spine ids, widths, surplus cell) and against kv/model.py (kv/tlcspine.py).",
+            'Trusted: kv/model.py SpineModel and tla/SpinePaths.tla (written independently; a disagreement between them is a harness error). Bounds: <=3 (thorough 4) spines, column cap 4-6, depth 4/5 for unmerged paths. Merging argument in DESIGN §3 C02.',
+            'explicit-state BFS to closure with lock-step refinement check against a reference model + bounded-exhaustive path enumeration + TLC explicit-state exploration of a TLA+ model whose every graph edge is replayed against the implementation', 'DESIGN.md §3 C02, §10.16'),
     'C09': ("All 25 200 (pitch, interval, direction) edges of the property's grid and all depth-2 paths of the transition graph they induce "
             "(every second edge from every reached spelling) are executed on kernpy.transpose / transpose_agnostics and compared with an independent "
             "letter/semitone model; inverse, unison, octave, fourth+fifth and general composition laws are evaluated on every path. Decided on the stated grid.",
